@@ -60,6 +60,7 @@ type Task struct {
 	PanicStack string
 	Steps      int
 	ExitSeq    int // driver step at which it exited
+	ExitVT     time.Duration
 	gate       chan struct{}
 }
 
@@ -333,6 +334,7 @@ func spawn(name string, lib bool, f func()) {
 			s.mu.Lock()
 			t.State = Exited
 			t.ExitSeq = s.Seq
+			t.ExitVT = time.Since(s.T0)
 			if !s.free.Load() {
 				s.event(EvExit, t.ID, t.Name, 0, "")
 			}
@@ -760,6 +762,8 @@ func (s *Sched) FreeRun() {
 
 // Snapshot describes the tasks (for verdicts and traces).
 type TaskInfo struct {
+	ExitSeq int
+	ExitVT  time.Duration
 	ID    int
 	Name  string
 	Lib   bool
@@ -775,7 +779,7 @@ func (s *Sched) Snapshot() []TaskInfo {
 	defer s.mu.Unlock()
 	out := make([]TaskInfo, 0, len(s.Tasks))
 	for _, t := range s.Tasks {
-		ti := TaskInfo{ID: t.ID, Name: t.Name, Lib: t.Lib, State: t.State.String(), Site: t.Site, Steps: t.Steps}
+		ti := TaskInfo{ExitSeq: t.ExitSeq, ExitVT: t.ExitVT, ID: t.ID, Name: t.Name, Lib: t.Lib, State: t.State.String(), Site: t.Site, Steps: t.Steps}
 		if t.Panic != nil {
 			ti.Panic = fmt.Sprint(t.Panic)
 			ti.Stack = t.PanicStack
